@@ -242,6 +242,17 @@ impl Engine for FsDiff {
             // a directory whose name looks like a member of the set: listings must skip it
             let _ = std::fs::create_dir_all(real_dir.join(format!("{}.2024-05-27.00000001.0badc0de.{}", cfg.prefix, cfg.ext)));
         }
+        // a symbolic link named like the newest member of the set (current period, highest counter), pointing at a
+        // regular file outside the log directory: not a file of the set, whatever it is called
+        let foreign_target = scratch.0.join("__elsewhere__").join("ledger.dat");
+        let link_name = format!("{}.{}.99999999.ffffffff.{}", cfg.prefix, crate::fsim::period_of(cfg.roll, plan.start).0, cfg.ext);
+        let with_link = ch.chance(1, 3);
+        if with_link {
+            std::fs::create_dir_all(&real_dir).expect("create scratch subdirectory");
+            std::fs::create_dir_all(foreign_target.parent().unwrap()).expect("foreign directory");
+            std::fs::write(&foreign_target, b"ledger of somebody else\n").expect("foreign file");
+            std::os::unix::fs::symlink(&foreign_target, real_dir.join(&link_name)).expect("symlink");
+        }
         let real_obs = {
             let dir = real_dir.clone();
             let snap = move || -> BTreeMap<String, Vec<u8>> {
@@ -258,6 +269,20 @@ impl Engine for FsDiff {
             };
             run_plan(&plan, constant_rng, &|| StdFs, path_str(&real_dir), &snap)
         };
+        if with_link {
+            out.probe("member_named_symlink_to_a_foreign_file");
+            let target_now = std::fs::read(&foreign_target).unwrap_or_default();
+            if target_now != b"ledger of somebody else\n" {
+                out.violate(
+                    prop,
+                    "foreign_file_touched_through_symlink",
+                    format!("the file behind the symbolic link {link_name} (outside the log directory) was changed to {:?}", String::from_utf8_lossy(&target_now)),
+                );
+            }
+            if std::fs::symlink_metadata(real_dir.join(&link_name)).is_err() {
+                out.violate(prop, "foreign_file_touched_through_symlink", format!("the symbolic link {link_name} was deleted by the file set"));
+            }
+        }
         drop(scratch);
 
         // --- compare
